@@ -156,7 +156,7 @@ def parse_out(s):
     for t in s.split():
         if "=" in t:
             k, v = t.split("=", 1)
-            if k in ("step", "nc", "idx"):
+            if k in ("step", "nc", "idx", "n", "m", "k", "l", "check"):
                 status.append(t)
             else:
                 mats[k] = parse_ratm(v)
@@ -1489,7 +1489,7 @@ def run(ctx):
         return mx, mm(G, mx), Sx, Sy
 
     def int_scalar(v):
-        ty = rng.choice(INT_SCALARS)
+        ty = rng.choice(INT_SCALARS if v >= 0 else INT_SCALARS[:5])     # unsigned kinds only for non-negative values
         ctx.count("scalarforms:int=" + ty.__name__)
         return ty(v)
 
@@ -1739,6 +1739,123 @@ def run(ctx):
                 break
             if not au.recheck(calls[-1] if calls else op):
                 break
+
+    # ---- LinearStateSpace.__init__: argument handling, defaults, error branches ---------------------------------
+    def shaped(r_, c_, den=2):
+        return gen_mat(rng, r_, c_, den=den, lo=-4, hi=4)
+
+    for i in range(ctx.n(45, 400)):
+        n, m, k = rng.randint(1, 4), rng.randint(1, 3), rng.randint(1, 3)
+        bad = rng.choice(["", "", "", "A", "C", "G", "mu0", "A+C", "C+G", "G+mu0"]) if i % 3 == 0 else ""
+        Ash = (n, n + rng.choice([-1, 1]) if n > 1 else 2) if "A" in bad else (n, n)
+        Csh = (n + rng.randint(1, 2), m) if "C" in bad else (n, m)
+        Gsh = (k, n + rng.randint(1, 2)) if "G" in bad else (k, n)
+        A, C, G = shaped(*Ash), shaped(*Csh), shaped(*Gsh)
+        hkind = rng.choice(["omit", "None", "ok", "ok", "wrong-rows"])
+        H = None if hkind in ("omit", "None") else shaped(k + (1 if hkind == "wrong-rows" else 0), rng.randint(1, 3))
+        mkind = "wrong-size" if "mu0" in bad else rng.choice(["omit", "None", "col", "row", "1d", "2xhalf" if n % 2 == 0 and n > 2 else "col"])
+        mu = None if mkind in ("omit", "None") else [F(rng.randint(-8, 8), 4) for _q in range(n + (1 if mkind == "wrong-size" else 0))]
+        skind = rng.choice(["omit", "None", "ok", "ok", "wrong-shape"])
+        S0 = None if skind in ("omit", "None") else (shaped(n + 1, n) if skind == "wrong-shape" else gen_psd(rng, n, "full"))
+        if mu is None:
+            mu2d = None
+        elif mkind == "col":
+            mu2d = [[v] for v in mu]
+        elif mkind == "2xhalf":
+            mu2d = [mu[:n // 2], mu[n // 2:]]
+        else:
+            mu2d = [list(mu)]          # a row, a 1-D sequence (atleast_2d makes it a row) or the wrong size
+        muobj = None if mu is None else (np.array([float(v) for v in mu]) if mkind == "1d" else to_np(mu2d))
+        args = [to_np(A), to_np(C), to_np(G)]
+        kwargs = {}
+        if hkind != "omit":
+            kwargs["H"] = None if H is None else to_np(H)
+        if mkind != "omit":
+            kwargs["mu_0"] = muobj
+        if skind != "omit":
+            kwargs["Sigma_0"] = None if S0 is None else to_np(S0)
+        for q_ in ("bad=" + (bad or "none"), "H=" + hkind, "mu_0=" + mkind, "Sigma_0=" + skind):
+            ctx.count("ctor:" + q_)
+        replay = {"op": "ctor", "A": ratm(A), "C": ratm(C), "G": ratm(G), "H": hkind if H is None else ratm(H),
+                  "mu_0": mkind if mu is None else ratm(mu2d), "Sigma_0": skind if S0 is None else ratm(S0)}
+        try:
+            if rng.random() < 0.5 and set(kwargs) == {"H", "mu_0", "Sigma_0"}:
+                ss = LinearStateSpace(*args, kwargs["H"], kwargs["mu_0"], kwargs["Sigma_0"])     # all positional
+            else:
+                ss = LinearStateSpace(*args, **kwargs)
+            impl = "ok n=%d m=%d k=%d l=%s mu0=%s S0=%s" % (ss.n, ss.m, ss.k, "none" if ss.l is None else ss.l,
+                                                           wire_f(ss.mu_0), wire_f(ss.Sigma_0))
+            got_ok = True
+        except ValueError as e:
+            msg = str(e)
+            which = 1 if msg.startswith("Matrix A") else 2 if msg.startswith("Matrix C") else 3 if msg.startswith("Matrix G") \
+                else 4 if "reshape" in msg else 0
+            impl = "ERR:ValueError check=%d" % which
+            got_ok = False
+            ctx.count("ctor:ValueError-check-%d" % which)
+        # spec (from the documented shapes, independent of the model): raises exactly when the shapes are incompatible
+        should_ok = Ash[0] == Ash[1] and Csh[0] == Ash[0] and Gsh[1] == Ash[0] and (mu is None or len(mu) == Ash[0])
+        if got_ok != should_ok:
+            ctx.spec_fail("lss_ctor_validation", "LinearStateSpace(...) %s although the shapes are %s" %
+                          ("was accepted" if got_ok else "raised ValueError", "incompatible" if not should_ok else "compatible"), replay)
+        elif got_ok:
+            good = (ss.n, ss.m, ss.k) == (n, m, k) and ss.l == (None if H is None else len(H[0])) and ss.mu_0.shape == (n, 1) and \
+                [r_[0] for r_ in fm(ss.mu_0)] == (list(mu) if mu is not None else [F(0)] * n) and \
+                (fm(ss.Sigma_0) == (S0 if S0 is not None else zeros(n, n))) and close(fm(ss.A), A, 0) and close(fm(ss.C), C, 0) and \
+                close(fm(ss.G), G, 0) and ((ss.H is None) == (H is None)) and (H is None or close(fm(ss.H), H, 0))
+            if not good:
+                ctx.spec_fail("lss_ctor_attributes", "n/m/k/l, mu_0, Sigma_0 or A/C/G/H of the new instance are not the documented ones", replay)
+        line = "C12 ctor A=%s C=%s G=%s" % (ratm(A), ratm(C), ratm(G))
+        if hkind != "omit":
+            line += " H=%s" % ("none" if H is None else ratm(H))
+        if mkind != "omit":
+            line += " mu0=%s" % ("none" if mu is None else ratm(mu2d))
+        if skind != "omit":
+            line += " S0=%s" % ("none" if S0 is None else ratm(S0))
+        cases.append(Case(line, impl, nontrivial=(n >= 2), cmp=env_cmp(0), tag="ctor"))
+
+    # ---- Kalman.stationary_coefficients ------------------------------------------------------------------------
+    for i in range(ctx.n(30, 250)):
+        n, k, m = rng.randint(1, 3), rng.randint(1, 2), rng.randint(1, 2)
+        A, C, G = gen_A(rng, n, rng.choice(["stable", "tri"])), gen_C(rng, n, m, "full"), gen_mat(rng, k, n, den=2, lo=-3, hi=3)
+        H = gen_H(rng, k, "full")
+        kn = Kalman(mk_ss(A, C, G, H))
+        try:
+            K = np.array(kn.stationary_values()[1])
+        except (ValueError, LinAlgError):
+            continue
+        Ke = fm(K)
+        j = rng.randint(-1, 5)
+        ty = rng.choice(["ma", "ma", "var", "var", "default", "xx", "MA"])
+        jobj = int_scalar(j)
+        ctx.count("statcoef:type=" + ty)
+        replay = {"op": "statcoef", "A": ratm(A), "G": ratm(G), "K": ratm(Ke), "j": j, "type": ty}
+        try:
+            if ty == "default":
+                got = kn.stationary_coefficients(jobj)
+            elif rng.random() < 0.5:
+                got = kn.stationary_coefficients(jobj, ty)
+            else:
+                got = kn.stationary_coefficients(coeff_type=ty, j=jobj)
+            impl = "ok " + " ".join("c%d=%s" % (q_, wire_f(c_)) for q_, c_ in enumerate(got))
+        except ValueError:
+            got, impl = None, "ERR:ValueError"
+            ctx.count("statcoef:ValueError")
+        ety = "ma" if ty == "default" else ty
+        if (got is None) != (ety not in ("ma", "var")):
+            ctx.spec_fail("stationary_coefficients_type", "coeff_type=%r %s" % (ty, "raised" if got is None else "was accepted"), replay)
+        elif got is not None:
+            if ety == "ma":
+                exp = [eye(k)] + [mm(mm(G, mpow(A, q_ - 1)), Ke) for q_ in range(1, max(j, 0) + 1)]
+            else:
+                Pm = msub(A, mm(Ke, G))
+                exp = [mm(mm(G, mpow(Pm, q_)), Ke) for q_ in range(0, max(j, 0) + 1)]
+            sc = F(ENV_X) * max([F(1)] + [maxabs(e_) for e_ in exp]) * 16
+            if len(got) != len(exp) or not all(close(fm(a_), e_, sc) for a_, e_ in zip(got, exp)):
+                ctx.spec_fail("stationary_coefficients", "coefficients are not %s" %
+                              ("I, G A^(i-1) K" if ety == "ma" else "G (A - K G)^i K"), replay)
+        cases.append(Case("C12 statcoef A=%s G=%s K=%s j=%d type=%s" % (ratm(A), ratm(G), ratm(Ke), j, ety), impl,
+                          nontrivial=(j >= 2), cmp=env_cmp(ENV_X * 16, errs_x), tag="statcoef"))
 
     # ---- hardening: random_state / method argument forms -----------------------------------------------------------
     for i in range(ctx.n(12, 100)):
